@@ -210,6 +210,35 @@ pub fn cmd_classify(args: &[String]) -> i32 {
             return 2;
         }
     }
+    // bound on the number of executions at the intervals where a timer-driven loop may change its ways: for every max 0..3 and
+    // interval 0, 1 (units), executions that all take 5 units and succeed: how many were started, and when the call returned
+    for max in 0usize..=3 {
+        for iv in [0u64, 1] {
+            let rt = tokio::runtime::Builder::new_current_thread().enable_time().start_paused(true).build().unwrap();
+            let (started, ok, t) = rt.block_on(async {
+                let t0 = tokio::time::Instant::now();
+                let counter = Rc::new(RefCell::new(0usize));
+                let generator = |_is_spec: bool| {
+                    let i = {
+                        let mut c = counter.borrow_mut();
+                        let i = *c;
+                        *c += 1;
+                        i
+                    };
+                    async move {
+                        tokio::time::sleep(Duration::from_millis(5 * UNIT_MS)).await;
+                        Some(Ok::<usize, RequestError>(i))
+                    }
+                };
+                let res = execute(max, Duration::from_millis(iv * UNIT_MS), generator).await;
+                let n = *counter.borrow();
+                (n, res.is_ok(), (t0.elapsed().as_millis() as u64) / UNIT_MS)
+            });
+            if writeln!(out, "{}", json!({"name": "Bound", "max": max, "iv": iv, "started": started, "result": if ok { "Ok" } else { "Err" }, "t": t})).is_err() {
+                return 2;
+            }
+        }
+    }
     let _ = out.flush();
     println!("{}", json!({"cmd": "c13-classify", "lines": table.len()}));
     0
